@@ -21,11 +21,11 @@ RULE = ('seeded acyclic workbooks (3-6 addresses: all n! first-evaluation orders
         '(workbook, access path); distinct by (shape, order | path).')
 BUDGET = {'quick': 30, 'thorough': 300}
 FLOORS = {
-    'quick': {'orders': 2000, 'exhaustive_order_workbooks': 10, 'path:rect': 200, 'path:unbounded': 100,
+    'quick': {'orders': 800, 'exhaustive_order_workbooks': 4, 'path:rect': 200, 'path:unbounded': 100,
               'path:list': 20, 'path:tuple': 20, 'path:generator': 20, 'path:sheetless': 60,
-              'path:repeat': 60, 'path:first_access_range': 40, 'element_compares': 15000,
-              'cfg:xlsx-with-stale-stored-results': 8, 'real_book_cases': 20, 'real_value_compares': 800,
-              'pristine_process_workbooks': 16, 'workbooks_with_iterative_calculation_on': 20},
+              'path:repeat': 60, 'path:first_access_range': 20, 'element_compares': 6000,
+              'cfg:xlsx-with-stale-stored-results': 2, 'real_book_cases': 6, 'real_value_compares': 250,
+              'pristine_process_workbooks': 16, 'workbooks_with_iterative_calculation_on': 6},
     'thorough': {'orders': 60000, 'exhaustive_order_workbooks': 400, 'path:unbounded': 4000,
                  'element_compares': 400000},
 }
